@@ -219,15 +219,18 @@ def run(tier, seed):
     allrecs = recs + wrecs
     for i, r in enumerate(allrecs):
         r["t"] = i
-    path = chk.dir / "seg.ndjson"
-    write_ndjson(path, allrecs)
-    res2 = run_tlc("Trace_Seg", "Trace_Seg", workdir=chk.dir, env={"TRACE_FILE": str(path)}, timeout=3000)
-    chk.add_tlc(res2)
-    if len(res2.records) != len(allrecs):
-        raise MachineryError(f"{len(allrecs)} builder records but {len(res2.records)} verdicts")
+    from harness.tlc import run_tlc_chunked
+    seg_results = run_tlc_chunked("Trace_Seg", allrecs, workdir=chk.dir, name="seg", chunk_bytes=3_000_000, parallel=4,
+                                  timeout=3000, workers=4)
+    seg_verdicts = []
+    for res2 in seg_results:
+        chk.add_tlc(res2)
+        seg_verdicts += res2.records
+    if len(seg_verdicts) != len(allrecs):
+        raise MachineryError(f"{len(allrecs)} builder records but {len(seg_verdicts)} verdicts")
     chk.traces = len(allrecs)
     other = 0
-    for v in res2.records:
+    for v in seg_verdicts:
         r = allrecs[v["t"]]
         src = "state" if v["t"] < len(recs) else "walk"
         for u in r["updates"]:
